@@ -957,6 +957,10 @@ func genPrim(c *h.Ctx) {
 	for st := 1 + r.Intn(2); st > 0; st-- {
 		m := append(append([]string{}, c08Methods...), "sort", "sortNum")[r.Intn(len(c08Methods)+2)]
 		var args, rets []string
+		if (m == "sort" || m == "sortNum") && strings.HasPrefix(recv, "s") && recv != sTok("") {
+			// ES5 15.4.4.11: sort is implementation-defined when an element is a non-writable data property
+			m = "reverse"
+		}
 		switch m {
 		case "push", "unshift":
 			for j := r.Intn(3); j > 0; j-- {
